@@ -445,7 +445,7 @@ static Verdict runC09(const Case &cs) {
       if (!b) return false;
       Conf cf; cf.la = la; cf.one = one; cf.cost = cost; cf.rec = rec; cf.match = match; cf.dbg = dbg;
       ParseOpts po; po.den_limit = isLong ? 50 : 3000;
-      yaep_verif.cache_check = 1; yaep_verif.track = 1; yaep_verif.rec_limit = 20000;
+      yaep_verif.cache_check = 1; yaep_verif.track = 1; yaep_verif.rec_limit = REC_LIMIT;
       Outcome o;
       { QuietStderr q; o = runParse(*b, codes, cf, po); }
       yaep_verif.cache_check = 0; yaep_verif.track = 0;
